@@ -266,6 +266,20 @@ for _ in range(40):
 import math as _math
 from fractions import Fraction as _Fr
 from rig import type_casts as _tc
+from rig.bitfield import BitField as _BF
+for _ in range(60):
+    Lb = rng.choice([4, 8, 16, 32])
+    flen, fstart = rng.choice([None, None, 1, 3, 8, 0]), rng.choice([None, None, 0, 2, 5, 30])
+    mv = rng.choice([1, 2, 3, 7, 8, 255, 256, 2 ** 20 + 5])
+    assigned = rng.getrandbits(Lb) & rng.getrandbits(Lb)
+    bf = _BF(Lb)
+    bf.add_field("f")
+    fld = bf.fields.get_field("f", {})
+    fld.length, fld.start_at, fld.max_value = flen, fstart, mv
+    def haf():
+        r = bf._assign_field(assigned, "f", {})
+        return show((r,)).rstrip(")").rstrip(",") + "," + SO(fld.length) + "," + SO(fld.start_at) + "," + show(fld.max_value) + ")"
+    add("BitField_assign_field (Rig.C08.logOps false) %s %s %s %s %s" % (OI(flen), OI(fstart), L(mv), L(Lb), L(assigned)), exc_(haf))
 for signed in (False, True):
     for bits in (0, 7, 8, 16, 32, 64, 65):
         frac = rng.randint(-3, 40)
@@ -343,7 +357,7 @@ for _ in range(60):
         add("SlicedMemoryIO_write %s %s" % (args, L(d)), "(" + ",".join([show(r)] + [show(x) for x in st(v)] + [EV(evs)]) + ")")
 
 cases = [c for c in cases if c[1] != ""]
-src = "import RigModel.Gen.PyFun\nimport RigModel.Props.C16Gen\nopen Rig.Gen Rig.Gen.PyFun\n" + "".join("#eval %s\n" % c[0] for c in cases)
+src = "import RigModel.Gen.PyFun\nimport RigModel.Props.C16Gen\nimport RigModel.Props.C08Gen\nopen Rig.Gen Rig.Gen.PyFun\n" + "".join("#eval %s\n" % c[0] for c in cases)
 HERE = os.path.dirname(os.path.dirname(os.path.abspath(__file__)))
 TMP = os.path.join(HERE, "lean", ".lake", "DiffTest.lean")
 open(TMP, "w").write(src)
